@@ -14,10 +14,13 @@ CORE = {
         "quick": {
             "mc": [{"acts": DISC + ["bind", "unbind", "entrem", "entadd", "listbinds"], "maxlen": 7},
                    {"acts": ["bind", "unbind", "listbinds", "disconnect"], "rich": ["bind", "unbind"], "maxlen": 3, "prefix": "PrefixP1P2"}],
-            "gen": [{"acts": ["bind", "unbind", "listbinds", "disconnect", "entrem"], "maxlen": 4, "prefix": "PrefixP1P2"},
-                    {"acts": ["bind", "unbind"], "rich": ["bind", "unbind"], "maxlen": 2, "prefix": "PrefixP1P2"}],
+            "gen": [{"acts": ["bind", "unbind", "listbinds", "disconnect", "entrem"], "maxlen": 3, "prefix": "PrefixP1P2"},
+                    {"acts": ["bind", "unbind"], "rich": ["bind"], "maxlen": 2, "prefix": "PrefixP1"},
+                    {"acts": ["bind", "unbind"], "rich": ["unbind"], "maxlen": 2, "prefix": "PrefixP1"},
+                    {"acts": ["bind", "unbind", "listbinds"], "maxlen": 5, "prefix": "PrefixP1", "view": "ViewDepth"},
+                    {"acts": ["bind", "unbind", "disconnect", "entrem"], "maxlen": 3, "prefix": "PrefixP1P2", "view": "ViewDepth"}],
             "sim": [{"acts": DISC + ["bind", "unbind", "listbinds", "entrem", "entadd"], "rich": ["unbind", "listbinds"], "maxlen": 16, "num": 150}],
-            "cap": 14000,
+            "cap": 40000,
         },
         "thorough": {
             "mc": [{"acts": DISC + ["bind", "unbind", "entrem", "entadd", "listbinds"], "maxlen": 9},
@@ -25,6 +28,85 @@ CORE = {
             "gen": [{"acts": ["bind", "unbind", "listbinds", "disconnect", "entrem", "entadd"], "maxlen": 5, "prefix": "PrefixP1P2"},
                     {"acts": ["bind", "unbind", "listbinds"], "rich": ["bind", "unbind"], "maxlen": 3, "prefix": "PrefixP1P2"}],
             "sim": [{"acts": DISC + ["bind", "unbind", "listbinds", "entrem", "entadd"], "rich": ["unbind", "listbinds"], "maxlen": 30, "num": 3000}],
+            "cap": 400000,
+        },
+    },
+    "C08": {
+        "checked": ["subs", "out", "ev", "ret", "panic", "dupout", "dupev", "ids"],
+        "assumptions": [
+            "peers announce distinct device addresses and use identical entity/feature numbering",
+            "a request names the requesting peer's own device address or omits it (SPINE 7.4.4); a delete naming another peer's device is outside the domain",
+            "data changes are full SetData calls and accepted full writes of a one-item list (list content rules belong to C02/C04)",
+        ],
+        "quick": {
+            "mc": [{"acts": DISC + ["sub", "unsub", "entrem", "setdata", "listsubs"], "maxlen": 6},
+                   {"acts": ["sub", "unsub", "listsubs", "disconnect"], "rich": ["sub", "unsub"], "maxlen": 3, "prefix": "PrefixP1P2"}],
+            "gen": [{"acts": ["sub", "unsub", "listsubs", "disconnect", "entrem", "setdata"], "maxlen": 2, "prefix": "PrefixP1P2"},
+                    {"acts": ["sub", "unsub"], "rich": ["sub"], "maxlen": 2, "prefix": "PrefixP1"},
+                    {"acts": ["sub", "unsub"], "rich": ["unsub"], "maxlen": 2, "prefix": "PrefixP1"},
+                    {"acts": ["sub", "unsub", "listsubs"], "maxlen": 4, "prefix": "PrefixP1", "view": "ViewDepth"},
+                    {"acts": ["sub", "unsub", "setdata", "bind", "write"], "maxlen": 3, "prefix": "PrefixP1P2"}],
+            "sim": [{"acts": DISC + ["sub", "unsub", "listsubs", "entrem", "entadd", "setdata", "bind", "write"], "rich": ["unsub", "listsubs"], "maxlen": 20, "num": 150}],
+            "cap": 40000,
+        },
+        "thorough": {
+            "mc": [{"acts": DISC + ["sub", "unsub", "entrem", "entadd", "setdata", "listsubs"], "maxlen": 7},
+                   {"acts": ["sub", "unsub", "listsubs", "disconnect"], "rich": ["sub", "unsub"], "maxlen": 4, "prefix": "PrefixP1P2"}],
+            "gen": [{"acts": ["sub", "unsub", "listsubs", "disconnect", "entrem", "entadd", "setdata"], "maxlen": 4, "prefix": "PrefixP1P2"},
+                    {"acts": ["sub", "unsub", "listsubs"], "rich": ["sub", "unsub"], "maxlen": 3, "prefix": "PrefixP1P2"},
+                    {"acts": ["sub", "unsub", "bind", "write", "setdata"], "maxlen": 4, "prefix": "PrefixP1P2"}],
+            "sim": [{"acts": DISC + ["sub", "unsub", "listsubs", "entrem", "entadd", "setdata", "bind", "write"], "rich": ["unsub", "listsubs"], "maxlen": 30, "num": 3000}],
+            "cap": 400000,
+        },
+    },
+    "C10": {
+        "checked": core.ALL_COMPS,
+        "assumptions": [
+            "peers announce distinct device addresses and use identical entity/feature numbering",
+            "pending write approvals and their timers are decided by the Approval schedule check (C12) and the teardown scenario there",
+            "the entity removed by a notification is never the device-information entity [0] (that is a robustness input, C05)",
+        ],
+        "quick": {
+            "mc": [{"acts": DISC + ["sub", "bind", "lsub", "lbind", "entrem", "entadd", "setdata"], "maxlen": 7}],
+            "gen": [{"acts": ["sub", "bind", "lsub", "lbind", "disconnect", "entrem", "setdata", "write", "listsubs", "listbinds"], "maxlen": 3, "prefix": "PrefixP1P2"},
+                    {"acts": DISC + ["sub", "bind", "lsub", "entrem", "entadd"], "rich": ["disconnect", "entrem", "entadd"], "maxlen": 4, "prefix": "PrefixP1"},
+                    {"acts": ["sub", "bind", "lbind", "disconnect", "entrem"], "maxlen": 3, "prefix": "PrefixP1P2", "view": "ViewDepth"}],
+            "sim": [{"acts": DISC + ["sub", "unsub", "bind", "unbind", "lsub", "lbind", "lunsub", "lunbind", "entrem", "entadd", "setdata", "write", "listsubs", "listbinds"],
+                     "rich": ["disconnect", "entrem", "entadd", "lsub", "lbind", "lunsub", "lunbind"], "maxlen": 25, "num": 200}],
+            "cap": 40000,
+        },
+        "thorough": {
+            "mc": [{"acts": DISC + ["sub", "bind", "lsub", "lbind", "entrem", "entadd", "setdata"], "maxlen": 9},
+                   {"peers": ["p1", "p2", "p3"], "acts": DISC + ["sub", "bind", "lsub", "entrem"], "maxlen": 9}],
+            "gen": [{"acts": ["sub", "bind", "lsub", "lbind", "disconnect", "entrem", "entadd", "setdata", "write", "listsubs", "listbinds"], "maxlen": 5, "prefix": "PrefixP1P2"},
+                    {"acts": DISC + ["sub", "bind", "lsub", "entrem", "entadd"], "rich": ["disconnect", "entrem", "entadd"], "maxlen": 6, "prefix": "PrefixP1"}],
+            "sim": [{"acts": DISC + ["sub", "unsub", "bind", "unbind", "lsub", "lbind", "lunsub", "lunbind", "entrem", "entadd", "setdata", "write", "listsubs", "listbinds"],
+                     "rich": ["disconnect", "entrem", "entadd", "lsub", "lbind", "lunsub", "lunbind"], "maxlen": 40, "num": 4000}],
+            "cap": 400000,
+        },
+    },
+    "C03": {
+        "checked": ["data", "out", "ev", "ret", "panic", "dupout", "dupev"],
+        "assumptions": [
+            "the writer is an announced feature of a connected peer or an unannounced address of a connected peer (then the write is dropped)",
+            "writes are full writes of a one-item list whose item is changeable (write shapes and write protection belong to C04)",
+            "the binding registry is followed from the code: a binding wrongly granted or removed is attributed to C09/C10, not C03",
+        ],
+        "quick": {
+            "mc": [{"acts": DISC + ["bind", "unbind", "entrem", "entadd", "write", "sub"], "maxlen": 6},
+                   {"acts": ["bind", "unbind", "write", "disconnect"], "rich": ["write"], "maxlen": 3, "prefix": "PrefixP1P2"}],
+            "gen": [{"acts": ["bind", "unbind", "disconnect", "entrem", "entadd", "write", "sub"], "maxlen": 3, "prefix": "PrefixP1P2"},
+                    {"acts": ["bind", "write"], "rich": ["write"], "maxlen": 2, "prefix": "PrefixP1"},
+                    {"acts": DISC + ["bind", "unbind", "entrem", "write"], "maxlen": 4, "prefix": "PrefixP1", "view": "ViewDepth"}],
+            "sim": [{"acts": DISC + ["bind", "unbind", "entrem", "entadd", "write", "sub", "setdata"], "rich": ["disconnect"], "maxlen": 25, "num": 200}],
+            "cap": 40000,
+        },
+        "thorough": {
+            "mc": [{"acts": DISC + ["bind", "unbind", "entrem", "entadd", "write", "sub"], "maxlen": 8, "maxval": 2},
+                   {"acts": ["bind", "unbind", "write", "disconnect"], "rich": ["write"], "maxlen": 4, "prefix": "PrefixP1P2"}],
+            "gen": [{"acts": ["bind", "unbind", "disconnect", "entrem", "entadd", "write", "sub"], "maxlen": 4, "prefix": "PrefixP1P2"},
+                    {"acts": ["bind", "unbind", "write"], "rich": ["write"], "maxlen": 3, "prefix": "PrefixP1P2"}],
+            "sim": [{"acts": DISC + ["bind", "unbind", "entrem", "entadd", "write", "sub", "setdata"], "rich": ["disconnect"], "maxlen": 40, "num": 4000}],
             "cap": 400000,
         },
     },
